@@ -130,6 +130,14 @@ macro_rules! subject_module {
                 if parsed != typed {
                     return Err(format!("parse(print(t)) != t: printed {:?} parsed back as {:?}", printed, own_trace(&parsed)));
                 }
+                // the same comparison through the accessors (the library's own `==` is not the yardstick)
+                let owned = own_trace(&parsed);
+                if owned != *t {
+                    return Err(format!("parse(print(t)) differs from t field by field although `==` holds: printed {:?} parsed back as {:?}", printed, owned));
+                }
+                if own_trace(&typed) != *t {
+                    return Err(format!("parse(print(t)): the constructed trace does not report the parts it was built from: {:?}", own_trace(&typed)));
+                }
                 let again = parsed.to_string();
                 if again != printed {
                     return Err(format!("print(parse(print(t))) != print(t): {:?} vs {:?}", again, printed));
@@ -154,6 +162,12 @@ macro_rules! subject_module {
                     if p != f {
                         return Err(format!("parse(print(frame)) != frame for {:?}: {:?}", cand, p));
                     }
+                    if (p.class(), p.method(), p.line(), p.file(), p.parameters()) != (class, method, line, Some(file), None) {
+                        return Err(format!("parse(print(frame)) differs from the frame field by field although `==` holds, for {:?}: {:?}", cand, p));
+                    }
+                    if p.full_method() != format!("{}.{}", class, method) {
+                        return Err(format!("full_method() of the parsed frame is {:?} for {:?}", p.full_method(), cand));
+                    }
                     if p.to_string() != printed {
                         return Err(format!("re-printed frame differs: {:?} vs {:?}", p.to_string(), printed));
                     }
@@ -169,6 +183,9 @@ macro_rules! subject_module {
                 let p = Throwable::try_parse(printed.as_bytes()).ok_or_else(|| format!("printed throwable does not parse: {:?}", printed))?;
                 if p != t {
                     return Err(format!("parse(print(throwable)) != throwable for {:?}: {:?}", printed, p));
+                }
+                if (p.class(), p.message()) != (class, message) {
+                    return Err(format!("parse(print(throwable)) differs from the throwable field by field although `==` holds, for {:?}: {:?}", printed, p));
                 }
                 if p.to_string() != printed {
                     return Err(format!("re-printed throwable differs: {:?}", p.to_string()));
@@ -340,8 +357,20 @@ macro_rules! subject_module {
                 abuf: &mut Aligned,
                 f: impl FnOnce(&ProguardMapper<'_>, &ProguardMapper<'_>, &ProguardCache<'_>, &[u8]) -> R,
             ) -> Result<R, String> {
-                let mapper = ProguardMapper::new(ProguardMapping::new(mapping_bytes));
-                let mapper_p = ProguardMapper::new_with_param_mapping(ProguardMapping::new(mapping_bytes), true);
+                // both public ways to build a mapper: `new*(ProguardMapping)` and the `From<&str>` / `From<(&str, bool)>`
+                // conversions (valid UTF-8 only); which one a state uses is a fixed function of its bytes
+                let via_from = match std::str::from_utf8(mapping_bytes) {
+                    Ok(text) if crate::fw::h64(mapping_bytes) & 1 == 1 => Some(text),
+                    _ => None,
+                };
+                let mapper = match via_from {
+                    Some(text) => ProguardMapper::from(text),
+                    None => ProguardMapper::new(ProguardMapping::new(mapping_bytes)),
+                };
+                let mapper_p = match via_from {
+                    Some(text) => ProguardMapper::from((text, true)),
+                    None => ProguardMapper::new_with_param_mapping(ProguardMapping::new(mapping_bytes), true),
+                };
                 let bytes = write_cache(mapping_bytes).map_err(|e| format!("write failed: {}", e))?;
                 abuf.set(&bytes);
                 let cache = ProguardCache::parse(abuf.as_slice()).map_err(|e| format!("parse failed: {:?}", e.kind()))?;
